@@ -646,3 +646,68 @@ Example get_deleted_fixed_on_witnesses :
   get_deleted_fixed wit_g wit_mapping wit_to_del = Ok [2] /\
   sorted_res (get_deleted_fixed wit2_g wit2_mapping wit2_to_del) = Ok [2; 3; 4; 6].
 Proof. split; vm_compute; reflexivity. Qed.
+
+(* ====================================================================================================
+   structural part of _patcher
+   ==================================================================================================== *)
+(* ---------- dict updates ---------- *)
+Lemma zget_zset_same {V} (d : list (Z * V)) k v : zget (zset d k v) k = Some v.
+Proof.
+  induction d as [|[k' v'] d IH]; cbn; [rewrite Z.eqb_refl; reflexivity|].
+  destruct (Z.eqb_spec k k'); cbn.
+  - rewrite Z.eqb_refl. reflexivity.
+  - destruct (Z.eqb_spec k k'); [contradiction|exact IH].
+Qed.
+
+Lemma zget_zset_other {V} (d : list (Z * V)) k v k' : k' <> k -> zget (zset d k v) k' = zget d k'.
+Proof.
+  intros Hne. induction d as [|[k0 v0] d IH]; cbn.
+  - destruct (Z.eqb_spec k' k); [contradiction|reflexivity].
+  - destruct (Z.eqb_spec k k0); cbn.
+    + subst k0. destruct (Z.eqb_spec k' k); [contradiction|reflexivity].
+    + destruct (k' =? k0); [reflexivity|exact IH].
+Qed.
+
+Lemma zget_zset {V} (d : list (Z * V)) k v k' : zget (zset d k v) k' = if k' =? k then Some v else zget d k'.
+Proof.
+  destruct (Z.eqb_spec k' k); [subst; apply zget_zset_same|apply zget_zset_other; assumption].
+Qed.
+
+Lemma keys_zset_In {V} (d : list (Z * V)) k v x : In x (keys (zset d k v)) <-> x = k \/ In x (keys d).
+Proof.
+  induction d as [|[k' v'] d IH]; cbn.
+  - intuition.
+  - destruct (Z.eqb_spec k k'); cbn.
+    + subst. intuition.
+    + rewrite IH. intuition.
+Qed.
+
+Lemma keys_zset_present {V} (d : list (Z * V)) k v : In k (keys d) -> keys (zset d k v) = keys d.
+Proof.
+  induction d as [|[k' v'] d IH]; cbn; [intros []|].
+  destruct (Z.eqb_spec k k'); cbn; [subst; reflexivity|].
+  intros [E|H]; [congruence|]. f_equal. apply IH. exact H.
+Qed.
+
+Lemma keys_zset_absent {V} (d : list (Z * V)) k v : ~ In k (keys d) -> keys (zset d k v) = keys d ++ [k].
+Proof.
+  induction d as [|[k' v'] d IH]; cbn; [reflexivity|].
+  intros H. destruct (Z.eqb_spec k k'); [exfalso; apply H; left; congruence|].
+  cbn. f_equal. apply IH. intros Hi. apply H. right. exact Hi.
+Qed.
+
+Lemma NoDup_snoc (l : list Z) k : NoDup l -> ~ In k l -> NoDup (l ++ [k]).
+Proof.
+  induction l as [|a l IH]; intros Hn Hk; cbn.
+  - constructor; [intros []|constructor].
+  - inversion Hn; subst. constructor.
+    + rewrite in_app_iff. intros [H|[H|[]]]; [contradiction|]. subst. apply Hk. left. reflexivity.
+    + apply IH; [assumption|]. intros H. apply Hk. right. exact H.
+Qed.
+
+Lemma NoDup_keys_zset {V} (d : list (Z * V)) k v : NoDup (keys d) -> NoDup (keys (zset d k v)).
+Proof.
+  intros H. destruct (in_dec Z.eq_dec k (keys d)) as [Hi|Hi].
+  - rewrite keys_zset_present; assumption.
+  - rewrite keys_zset_absent by assumption. apply NoDup_snoc; assumption.
+Qed.
